@@ -149,6 +149,44 @@ def designs(tier):
       gen=[(r'imemresp_data$', inst)])
   add('ex03.ProcCtrl', proc_piece('ProcCtrl'), cycles=(30 if not th else 80), reset=2, gen=[(r'inst_D$', inst)])
   add('ex03.ProcRTL', proc_piece('ProcRTL'), cycles=(30 if not th else 120), reset=2, gen=[(r'imem\.resp\.msg$', inst)])
+  # --- more of the library: en/rdy one- and two-entry queues, ROMs (constant nets), the checksum accelerator, processor + accelerator
+  from pymtl3.stdlib.queues import enrdy_queues as eq
+  from pymtl3.stdlib.mem import ROMRTL as rom
+  add('enrdy_queues.PipeQueue1RTL(Bits8)', lambda: eq.PipeQueue1RTL(Bits8))
+  add('enrdy_queues.BypassQueue1RTL(LibMsg)', lambda: eq.BypassQueue1RTL(Msg))
+  add('enrdy_queues.BypassQueue2RTL(Bits16)', lambda: eq.BypassQueue2RTL(Bits16))
+  add('enrdy_queues.NormalQueue1RTL(Bits8)', lambda: eq.NormalQueue1RTL(Bits8))
+  add('CombinationalROMRTL(Bits8,4,2 ports)', lambda: rom.CombinationalROMRTL(Bits8, 4, [1, 2, 3, 200], 2))
+  add('SequentialROMRTL(Bits8,5)', lambda: rom.SequentialROMRTL(Bits8, 5, [1, 2, 3, 200, 7], 1), [(r'raddr\[\d+\]$', 5)])
+  def xcel():
+    from examples.ex04_xcel.ChecksumXcelRTL import ChecksumXcelRTL
+    return ChecksumXcelRTL()
+  def procxcel():
+    from examples.ex04_xcel.ChecksumXcelRTL import ChecksumXcelRTL
+    from examples.ex04_xcel.ProcXcel import ProcXcel
+    from examples.ex03_proc.ProcRTL import ProcRTL
+    return ProcXcel(ProcRTL, ChecksumXcelRTL)
+  add('ex04.ChecksumXcelRTL', xcel, cycles=(30 if not th else 100), reset=1)
+  add('ex04.ProcXcel(ProcRTL,ChecksumXcelRTL)', procxcel, cycles=100, reset=2, gen=[(r'imem\.resp\.msg$', inst)], thorough_only=True)
+  # components that keep Python state next to their signals: the translator must refuse them
+  def src():
+    from pymtl3.stdlib.stream.SourceRTL import SourceRTL
+    return SourceRTL(Bits8, [Bits8(1), Bits8(2)])
+  def sink():
+    from pymtl3.stdlib.stream.SinkRTL import SinkRTL
+    return SinkRTL(Bits8, [Bits8(1)])
+  def delay():
+    from pymtl3.stdlib.stream.magic_memory import InelasticDelayPipe
+    return InelasticDelayPipe(Bits8, 2)
+  add('stream.SourceRTL', src); add('stream.SinkRTL', sink); add('stream.InelasticDelayPipe', delay)
+  # --- hand-written components covering the rest of the translator's Python subset (c01_lib_extra.py)
+  from . import c01_lib_extra as X
+  add('extra.XTemps', X.XTemps)
+  add('extra.XHold', X.XHold)
+  add('extra.XIndex', X.XIndex)
+  add('extra.XInts', X.XInts)
+  add('extra.XRegs', X.XRegs, [(r'wi$', 5)])
+  add('extra.XExtraTop', X.XExtraTop)
   return D
 
 # ---------------------------------------------------------------------------------------------------------------------
@@ -355,6 +393,8 @@ def one_design(ck, rng, name, factory, opts, ncycles, n_ext, flows, rec):
     rec.update(status='reference-diverges', reason=str(e)); ref_trace = None
   # 2. real runs
   runs = []
+  # oracle (2) of C01 on small designs inside the theorem hypotheses: re-running any comb block after evaluation changes nothing
+  rerun = td.n_real <= 60 and not tr.notes['holds']
   try:
     edges = None
     for flow in flows:
@@ -366,12 +406,13 @@ def one_design(ck, rng, name, factory, opts, ncycles, n_ext, flows, rec):
           rec.setdefault('flows_refused_by_scheduler', {})[flow] = 'UpblkCyclicError'; continue
         raise
       entries, flat = model_entries(rs, tr)
-      tr_real, _ = rtlgen.run_real(rs, cycles, rerun=False)
+      tr_real, fails = rtlgen.run_real(rs, cycles, rerun=rerun)
+      if fails: rec.setdefault('rerun_fails', []).append((flow, fails[0]['cycle'], fails[0]['block']))
       if not rs.objects_stable(): raise InfraError(f'{name}: signal value objects were replaced during simulation')
       runs.append((flow, entries, flat, rs.ff_entries(), tr_real))
       if edges is None: edges = rtlgen.real_edges(rs)
     comb_ids, ff_ids = td.comb_ids(), td.ff_ids()
-    for i, order in enumerate(rtlgen.linear_extensions(rng, comb_ids, edges, n_ext)):
+    for i, order in enumerate(rtlgen.linear_extensions(rng, comb_ids, edges, n_ext if td.n_real <= 150 else max(1, n_ext // 2))):
       fo = list(ff_ids); rng.shuffle(fo)
       rs2 = LibSim(factory, td, 'simple', comb_order=order, ff_order=fo)
       tr2, _ = rtlgen.run_real(rs2, cycles, rerun=False)
@@ -426,6 +467,9 @@ def run_library(ck):
         ck.disagreement('pymtl2rtl/Model≈library simulation', {'design': name, 'what': 'translated design has two writers of one bit'}, rep, 'elaborated by pymtl3')
       if rec['noSelf'] != (not ref.self_read):
         ck.disagreement('pymtl2rtl/Model≈library simulation', {'design': name, 'what': 'noSelf'}, rep, {'python_footprints_self_read': ref.self_read})
+      for (flow, k, blkname) in rec.get('rerun_fails', []):
+        ck.violation('rerun-changes-state', {'flow': flow, 'design': name}, {'design': name, 'inputs': cycles, 'signals': paths},
+                     {'cycle': k, 'block': blkname, 'oracle': 're-running a comb block after evaluation must change no signal'})
       # the C01 property on the real library design: all legal schedules give the same values
       base = runs[0]
       for r in runs[1:]:
@@ -487,3 +531,37 @@ def run_library(ck):
 def h(x):
   import hashlib, json
   return hashlib.sha256(json.dumps(x, sort_keys=True, default=str).encode()).hexdigest()[:10]
+
+def replay(ck, data):
+  """re-run a recorded library case: translate the named design again, simulate the recorded inputs on the real
+  simulator (DefaultPassGroup), in LibRefSim and in the driver; print the first difference; 1 if any, else 0"""
+  case = data.get('case') or {}
+  name, cycles = case.get('design'), case.get('inputs')
+  hit = [d for t in ('quick', 'thorough') for d in designs(t) if d[0] == name]
+  if not hit or cycles is None:
+    print(f'cannot replay: design {name!r} / inputs not recorded'); return 1
+  _, factory, opts = hit[0]
+  cycles = [[tuple(p) for p in c] for c in cycles]
+  rtlgen.quiet_dump_dag()
+  top = factory(); top.elaborate()
+  tr = pymtl2rtl.Translator(top).run()
+  td = TDesign(name, tr)
+  rs = LibSim(factory, td, 'default')
+  entries, flat = model_entries(rs, tr)
+  real, _ = rtlgen.run_real(rs, cycles, rerun=False)
+  ref = LibRefSim(tr)
+  rt = [ref.cycle(c) for c in cycles]
+  rt = [(a[:td.n_real], b[:td.n_real]) for a, b in rt]
+  rep = ck.drv('rtl').batch([leanio.line('rtl', 'sim', td.sexp(), sexp_entries(entries), rs.ff_entries(), [[list(p) for p in c] for c in cycles])])[0]
+  got = rtlgen.parse_sim_reply(rep)
+  paths = [s.path for s in td.sigs]
+  bad = 0
+  for label, other in (('translated dataflow (LibRefSim)', rt), ('Lean model', got if isinstance(got, tuple) else [(a[:td.n_real], b[:td.n_real]) for a, b in got])):
+    if isinstance(other, tuple): print(label, other); bad = 1; continue
+    d = first_diff(other, real)
+    if d is None: print(f'{name}: real simulation == {label} on {len(cycles)} cycles'); continue
+    k, ph, sg = d
+    bad = 1
+    print(f'{name}: real simulation != {label} at cycle {k} {ph}:')
+    for i in sg[:20]: print(f'   {paths[i]}: real {real[k][0 if ph.endswith("combinational") else 1][i]:#x}  other {other[k][0 if ph.endswith("combinational") else 1][i]:#x}')
+  return bad
